@@ -224,7 +224,9 @@ func c16History(c *Ctx, r *Rng, t *TNode, length int, forced []string) {
 			hist = append(hist, c16Step{Op: op})
 			var data []byte
 			var eerr error
-			if p, msg := safely(func() { data, eerr = libraryEncode(col, map[string]string{"encode": "buffer", "write": "write", "block": "block"}[op]) }); p || eerr != nil {
+			if p, msg := safely(func() {
+				data, eerr = libraryEncode(col, map[string]string{"encode": "buffer", "write": "write", "block": "block"}[op])
+			}); p || eerr != nil {
 				R.Violate(Violation{Kind: "oracle", Key: "reuse-encode-panic", What: fmt.Sprintf("%s panicked/failed: %s %v", op, msg, eerr), Case: cs()})
 				return
 			}
